@@ -29,7 +29,8 @@ struct elem {
     struct cstl_dlist_node n2;
 };
 
-static struct cstl_dlist lists[NL];
+/* list 2 is initialised by the header's compile-time initializer and never by cstl_dlist_init */
+static struct cstl_dlist lists[NL] = { [1] = CSTL_DLIST_INITIALIZER(lists[1], struct elem, n) };
 static struct elem pool[NE];
 static struct cstl_dlist_node poisonv[NE];
 
@@ -112,6 +113,10 @@ static void reset(void)
     int i;
     memset(pool, 0, sizeof(pool));
     for (i = 0; i < NL; i++) {
+        if (i == 1) {
+            continue;       /* compile-time initializer */
+        }
+        H_POISON_OBJ(lists[i]);
         cstl_dlist_init(&lists[i], i == 2 ? offsetof(struct elem, n2) : offsetof(struct elem, n));
     }
 }
